@@ -10,6 +10,10 @@ rnd = sys.argv[sys.argv.index("--round") + 1] if "--round" in sys.argv else "1"
 wt = ("/tmp/seed-" if rnd == "1" else "/tmp/seed%s-" % rnd) + pid
 src = os.path.join(wt, "OUT", n)
 dst = "/verif/seeded/%s-%s" % (pid, n) if rnd == "1" else "/verif/seeded/%s-r%s-%s" % (pid, rnd, n)
+if "--wt" in sys.argv:      # round 3: area worktrees; the property is named by the change's README
+    wt = sys.argv[sys.argv.index("--wt") + 1]
+    src = os.path.join(wt, "OUT", n)
+    dst = "/verif/seeded/%s-r%s-%s%s" % (pid, rnd, os.path.basename(wt).split("-")[-1], n)
 os.makedirs(dst, exist_ok=True)
 for f in os.listdir(src):
     if os.path.isfile(os.path.join(src, f)) and os.path.getsize(os.path.join(src, f)) < 400000:
